@@ -158,6 +158,24 @@ fn run_ty<R>(c: &Case, tier: Tier) -> Chk<Pass> where R: Sc + yui::Ring, for<'x>
     let after = fingerprint(&k, &dred, &nred, c.rty);
     ensure!(before == after, "{what}: homology changed by the reduction: (free rank, valuations at 2,3,5) per degree before {:?}, after {:?}; reduced d = {:?}", before, after, dred.iter().map(|d| d.show()).collect::<Vec<_>>());
 
+    // ChainComplexBase::reduced(), applied twice: the second reduction starts from summands that already carry transfer maps
+    {
+        let rr = with_schedule(threads, c.sched, || guard(|| {
+            let r1 = cx.reduced();
+            let d1: Vec<SpMat<R>> = (0..l).map(|i| r1.d_matrix(i as isize)).collect();
+            let r2 = r1.reduced();
+            let d2: Vec<SpMat<R>> = (0..l).map(|i| r2.d_matrix(i as isize)).collect();
+            (d1, d2)
+        })).0;
+        let (d1, d2) = match rr { Ok(v) => v, Err(m) => return if R::machine() && is_arith_overflow(&m) { discard("machine-overflow") } else { bad(format!("{what}: reduced() / reduced().reduced() panicked: {m}")) } };
+        for (name, ds) in [("reduced()", d1), ("reduced().reduced()", d2)] {
+            let rms: Vec<RM> = ds.iter().map(|d| sp_to_rm(d).map_err(Bad::Fail)).collect::<Chk<Vec<_>>>()?;
+            let ns: Vec<usize> = rms.iter().map(|d| d.n).collect();
+            for i in 0..l.saturating_sub(1) { ensure!(rms[i].m == ns[i + 1], "{what}: {name}: shapes inconsistent at degree {i}"); ensure!(rms[i + 1].mul(&rms[i]).is_zero(), "{what}: {name}: d.d != 0 at degree {i}"); }
+            let fp = fingerprint(&k, &rms, &ns, c.rty);
+            ensure!(fp == before, "{what}: {name} changes the homology: fingerprint {:?}, original {:?}; differentials {:?}", fp, before, rms.iter().map(|d| d.show()).collect::<Vec<_>>());
+        }
+    }
     let reduced_any = (0..l).any(|i| nred[i] < p.ranks[i]);
     Ok(Pass::new().nt(reduced_any && l >= 2).label(format!("ring:{:?}", c.rty)).label(format!("threads:{threads}")).label_if(reduced_any, "pivots-found")
         .label_if(!vmods.is_empty(), "tracked-vectors").label_if(!c.with_trans, "without-trans").label_if(dred.iter().all(|d| d.is_zero()), "fully-reduced").label_if(retries > 0, "pivot-retry>=1").label(format!("sched:{}", match c.sched { Sched::Free => "free", Sched::Barrier(_) => "barrier", Sched::Delay(..) => "delay", Sched::Stagger => "stagger" })))
@@ -201,7 +219,7 @@ impl Prop for C08 {
                 .prop_map(|(rty, degs, steps, vecs, threads, with_trans, sched)| Case { rty, degs, steps, vecs, threads, with_trans, sched })
         }).boxed()
     }
-    fn cases(tier: Tier) -> u32 { tier.pick(20_000, 400_000) }
+    fn cases(tier: Tier) -> u32 { tier.pick(12_000, 300_000) }
     fn shards(_: Tier) -> usize { 8 }
     fn replay_repeats() -> usize { 30 }
     fn run(case: &Case, ctx: &Ctx) -> Outcome { to_outcome(run_case(case, ctx.tier)) }
